@@ -2,7 +2,7 @@
    Statements only; proofs in Lang/ModProofs.v, Lang/ModGroup.v, Gates/InvCheck.v.  The library
    inverse obligations are discharged against GatesGen.v, regenerated from maps.py on every run. *)
 From Coq Require Import ZArith List Bool String Permutation.
-From Verif Require Import BGate PyVal Ast State Unroll GateCheck GatesGen GateSpecGen GateLib KnownBad InvCheck ModProofs ModGroup.
+From Verif Require Import BGate PyVal Ast State Unroll ExternalProofs GateCheck GatesGen GateSpecGen GateLib KnownBad InvCheck ModProofs ModGroup.
 Import ListNotations.
 
 (* (1) library gates: for every name the inverse table accepts (and that has a defining unitary),
@@ -65,6 +65,17 @@ Theorem C06_ctrl_rejected call_rec e ms p i s :
   collapse_mods call_rec (MNegCtrl e :: ms) p i s = Err (EInternal KNotImpl).
 Proof. exact (ctrl_rejected call_rec e ms p i s). Qed.
 Print Assumptions C06_ctrl_rejected.
+
+(* the visitor's part of that: an inverted call of a custom gate visits the members of the definition's body in
+   REVERSE order, each with `inv` appended to its modifiers (parameters substituted, formal qubits bound) *)
+Theorem C06_inverted_custom_call_reverses_and_inverts_members visit_rec call_rec name args qubits out s s' :
+  visit_custom_gate false visit_rec call_rec name args qubits true s = Ok (out, s') ->
+  exists gd pmap qmap outs,
+    sget name (gates s) = Some gd /\ out = List.concat outs /\
+    Forall2 (fun op o => exists op' s1 s2, expands name pmap qmap true op op' /\ visit_rec op' s1 = Ok (o, s2))
+            (rev (g_body gd)) outs.
+Proof. exact (custom_gate_expands_its_body visit_rec call_rec name args qubits true out s s'). Qed.
+Print Assumptions C06_inverted_custom_call_reverses_and_inverts_members.
 
 (* (3) meaning, over any group of circuit meanings: `inv @` on a call tree of custom gates nested to
    any depth (body reversed, members inverted) denotes the inverse, given that every library inverse
